@@ -3,7 +3,7 @@
 // sim::ReferenceSimulator under random and adversarial push/pop schedules and prints, for every rising
 // clock edge event, the inputs that were applied and the interface values sampled just before the edge.
 //
-// Usage: c15 <seed> <ncases> <eventsPerCase> [stream|deep|gray|array]      (array = scl::FifoArray, see runArrayCase)
+// Usage: c15 <seed> <ncases> <eventsPerCase> [stream|deep|gray|array|trans]      (array = scl::FifoArray, trans = scl::TransactionalFifo)
 //   stream = drive scl::strm::fifo instead (see runStreamCase); deep = dual-clock FIFOs of depth 128/256/512 only;
 //   gray = tie scl::grayEncode/grayDecode at widths 1..16 (see runGrayCase; <eventsPerCase> = random samples per width > 12)
 //
@@ -19,6 +19,7 @@
 #include <gatery/frontend.h>
 #include <gatery/scl/Fifo.h>
 #include <gatery/scl/FifoArray.h>
+#include <gatery/scl/TransactionalFifo.h>
 #include <gatery/scl/stream/Stream.h>
 #include <gatery/scl/stream/streamFifo.h>
 #include <gatery/simulation/SimulatorCallbacks.h>
@@ -515,12 +516,143 @@ static void runArrayCase(uint64_t id, Rng rng, size_t nEvents, std::ostream &o) 
 	o << "end\n";
 }
 
+// ---- TransactionalFifo (scl/TransactionalFifo.h), single clock ---------------------------------------
+//   case <id> mode=trans k= N= min= w= lat= lw= lr=
+//   x <rst> <push> <data> <pushCommit> <pushRollback> <cutoff> <pop> <popCommit> <popRollback> | <full> <pvalid> <psize> | <empty> <qvalid> <qsize> <peek>
+// Wiring (order matters, the later call wins): IF(push) push; IF(pushCommit) commitPush(cutoff); IF(pushRollback) rollbackPush();
+//                                              IF(pop) pop;   IF(popCommit) commitPop();        IF(popRollback) rollbackPop();
+struct XTFifo : scl::TransactionalFifo<UInt> {
+	using scl::TransactionalFifo<UInt>::TransactionalFifo;
+	FifoCapabilities::Choice &choice() { return dynamic_cast<scl::FifoMeta*>(m_area.metaInfo())->fifoChoice; }
+	const Bit &pushValid() const { return m_pushValid; }
+	const Bit &popValid() const { return m_popValid; }
+	const UInt &pushSize() const { return m_pushSize; }
+	const UInt &popSize() const { return m_popSize; }
+};
+
+static void runTransCase(uint64_t id, Rng rng, size_t nEvents, std::ostream &o) {
+	size_t k = rng.chance(1, 2) ? rng.range(1, 3) : rng.range(0, 5);
+	size_t N = size_t(1) << k;
+	size_t minDepth = (k == 0) ? 1 : rng.range((N >> 1) + 1, N);
+	static const std::vector<size_t> widths = {4, 8, 8, 13, 16, 33};
+	size_t w = rng.pick(widths);
+	LatOpt lat{'D', 0};
+	switch (rng.below(6)) {
+		case 0: case 1: lat = {'D', 0}; break;
+		case 2: case 3: lat = {'S', (size_t)rng.range(1, 4)}; break;
+		case 4: lat = {'L', (size_t)rng.range(0, 4)}; break;
+		default: lat = {'M', (size_t)rng.range(1, 5)}; break;
+	}
+	std::ostringstream hdr;
+	hdr << "case " << id << " mode=trans k=" << k << " N=" << N << " min=" << minDepth << " w=" << w << " lat=" << lat.kind;
+	if (lat.kind != 'D') hdr << lat.n;
+
+	DesignScope design;
+	Clock clock({ .absoluteFrequency = hlim::ClockRational(1'000'000, 1), .name = "clk" });
+	ClockScope cs(clock);
+	hlim::Node_Pin *pPush, *pData, *pPC, *pPR, *pCut, *pPop, *pQC, *pQR;
+	hlim::Node_Pin *oFull, *oPV, *oPS, *oEmpty, *oQV, *oQS, *oPeek;
+	size_t lw = 0, lr = 0;
+	try {
+		XTFifo fifo{ minDepth, UInt{ BitWidth(w) }, mkLat(lat) };
+		HCL_DESIGNCHECK(fifo.depth() == N);
+		auto ipPush = pinIn().setName("push"); pPush = ipPush.node(); Bit push = ipPush;
+		auto ipData = pinIn(BitWidth(w)).setName("push_data"); pData = ipData.node(); UInt data = ipData;
+		auto ipPC = pinIn().setName("push_commit"); pPC = ipPC.node(); Bit pushCommit = ipPC;
+		auto ipPR = pinIn().setName("push_rollback"); pPR = ipPR.node(); Bit pushRollback = ipPR;
+		auto ipCut = pinIn(BitWidth(k + 1)).setName("cutoff"); pCut = ipCut.node(); UInt cutoff = ipCut;
+		auto ipPop = pinIn().setName("pop"); pPop = ipPop.node(); Bit pop = ipPop;
+		auto ipQC = pinIn().setName("pop_commit"); pQC = ipQC.node(); Bit popCommit = ipQC;
+		auto ipQR = pinIn().setName("pop_rollback"); pQR = ipQR.node(); Bit popRollback = ipQR;
+		IF(push) fifo.push(data);
+		IF(pushCommit) fifo.commitPush(cutoff);
+		IF(pushRollback) fifo.rollbackPush();
+		UInt peek = fifo.peek();
+		IF(pop) fifo.pop();
+		IF(popCommit) fifo.commitPop();
+		IF(popRollback) fifo.rollbackPop();
+		oFull = pinOut(fifo.full()).setName("full").node();
+		oEmpty = pinOut(fifo.empty()).setName("empty").node();
+		oPeek = pinOut(peek).setName("peek").node();
+		fifo.generate();
+		oPV = pinOut(fifo.pushValid()).setName("push_valid").node();
+		oPS = pinOut(fifo.pushSize()).setName("push_size").node();
+		oQV = pinOut(fifo.popValid()).setName("pop_valid").node();
+		oQS = pinOut(fifo.popSize()).setName("pop_size").node();
+		lw = fifo.choice().latency_writeToEmpty;
+		lr = fifo.choice().latency_readToFull;
+		design.postprocess();
+	} catch (const gtry::utils::DesignError &e) {
+		if (getenv("C15_VERBOSE")) std::cerr << "case " << id << ": " << e.what() << "\n";
+		o << hdr.str() << " err=e\nend\n";
+		return;
+	}
+	o << hdr.str() << " lw=" << lw << " lr=" << lr << "\n";
+
+	ClockSpy spy;
+	spy.pushClk = spy.popClk = clock.getClk()->getClockPinSource();
+	sim::ReferenceSimulator sim(false);
+	sim.addCallbacks(&spy);
+	sim.compileProgram(design.getCircuit());
+	sim.powerOn();
+	auto set = [&](hlim::Node_Pin *pin, const std::string &bits) { sim.simProcSetInputPin(pin, sim::convertToExtended(vh::bitsFromString(bits))); };
+	auto get = [&](hlim::Node_Pin *pin) { return vh::bitsToString(sim.getValueOfOutput(pin->getDriver(0))); };
+
+	bool push = false, pc = false, pr = false, pop = false, qc = false, qr = false;
+	uint64_t cutoff = 0;
+	std::string data = toBits(0, w);
+	uint64_t counter = 1;
+	size_t tentative = 0; // pushes accepted since the last push commit / rollback (bounds the cutoff)
+	enum TMode { T_TRANSPARENT, T_PACKETS, T_RANDOM, T_SIMULTANEOUS, T_ROLLBACK_HEAVY, T_FILL, T_DRAIN, T_NMODES };
+	TMode mode = T_TRANSPARENT; size_t modeLeft = 0;
+	bool released = false;
+	for (size_t ev = 0; ev < nEvents; ev++) {
+		set(pPush, push ? "1" : "0"); set(pData, data); set(pPC, pc ? "1" : "0"); set(pPR, pr ? "1" : "0"); set(pCut, toBits(cutoff, k + 1));
+		set(pPop, pop ? "1" : "0"); set(pQC, qc ? "1" : "0"); set(pQR, qr ? "1" : "0");
+		sim.reevaluate();
+		std::string full = get(oFull), pv = get(oPV), ps = get(oPS), empty = get(oEmpty), qv = get(oQV), qs = get(oQS), peek = get(oPeek);
+		bool rst = spy.pushRst;
+		spy.pushEdge = false;
+		size_t guard = 0;
+		while (!spy.pushEdge) {
+			sim.advanceEvent();
+			if (!spy.pushEdge) rst = spy.pushRst;
+			if (++guard > 1000) { o << "abort no-clock-edge\n"; break; }
+		}
+		o << "x " << (rst ? 1 : 0) << ' ' << (push ? 1 : 0) << ' ' << data << ' ' << (pc ? 1 : 0) << ' ' << (pr ? 1 : 0) << ' ' << cutoff << ' '
+		  << (pop ? 1 : 0) << ' ' << (qc ? 1 : 0) << ' ' << (qr ? 1 : 0)
+		  << " | " << full << ' ' << pv << ' ' << ps << " | " << empty << ' ' << qv << ' ' << qs << ' ' << peek << '\n';
+		if (!released) { released = !spy.pushRst; if (!released) continue; }
+		// bookkeeping for the cutoff bound (statement order of generatePush)
+		if (pv == "1") tentative++;
+		if (pr) tentative = 0; else if (pc) tentative = 0;
+		if (modeLeft == 0) { mode = (TMode)rng.below(T_NMODES); modeLeft = rng.range(4, 5 * N + 12); } else modeLeft--;
+		switch (mode) {
+			case T_TRANSPARENT: push = rng.chance(1, 2); pop = rng.chance(1, 2); pc = true; qc = true; pr = qr = false; break;
+			case T_PACKETS: push = rng.chance(3, 4); pc = rng.chance(1, 5); pr = !pc && rng.chance(1, 10);
+			                pop = rng.chance(3, 4); qc = rng.chance(1, 5); qr = !qc && rng.chance(1, 10); break;
+			case T_RANDOM: push = rng.chance(1, 2); pc = rng.chance(1, 3); pr = rng.chance(1, 6); pop = rng.chance(1, 2); qc = rng.chance(1, 3); qr = rng.chance(1, 6); break;
+			case T_SIMULTANEOUS: // strobes deliberately asserted together: pop with rollbackPop, push with rollbackPush, commit with rollback
+				push = rng.chance(3, 4); pop = rng.chance(3, 4);
+				pr = push && rng.chance(1, 3); qr = pop && rng.chance(1, 3);
+				pc = rng.chance(1, 2); qc = rng.chance(1, 2); break;
+			case T_ROLLBACK_HEAVY: push = true; pop = true; pc = rng.chance(1, 6); qc = rng.chance(1, 6); pr = rng.chance(1, 3); qr = rng.chance(1, 3); break;
+			case T_FILL: push = true; pc = rng.chance(1, 3); pr = rng.chance(1, 12); pop = rng.chance(1, 6); qc = rng.chance(1, 2); qr = rng.chance(1, 8); break;
+			case T_DRAIN: push = rng.chance(1, 6); pc = true; pr = false; pop = true; qc = rng.chance(1, 3); qr = rng.chance(1, 8); break;
+			default: push = pop = pc = pr = qc = qr = false;
+		}
+		cutoff = (pc && tentative > 0 && rng.chance(1, 6)) ? rng.range(1, tentative) : 0;
+		data = rng.chance(1, 16) ? toBits(rng.next(), w) : toBits(counter++, w);
+	}
+	o << "end\n";
+}
+
 int main(int argc, char **argv) {
 	uint64_t seed = vh::argU64(argc, argv, 1, 1);
 	uint64_t ncases = vh::argU64(argc, argv, 2, 10);
 	uint64_t nEvents = vh::argU64(argc, argv, 3, 200);
 	std::string modeArg = argc > 4 ? std::string(argv[4]) : std::string();
-	bool streamMode = modeArg == "stream", deepMode = modeArg == "deep", grayMode = modeArg == "gray", arrayMode = modeArg == "array";
+	bool streamMode = modeArg == "stream", deepMode = modeArg == "deep", grayMode = modeArg == "gray", arrayMode = modeArg == "array", transMode = modeArg == "trans";
 	std::ios::sync_with_stdio(false);
 	// gatery may drop debug visualisations (*.dot) into the cwd when a design check fails: keep them out of the tree
 	{ std::error_code ec; std::filesystem::current_path(std::filesystem::temp_directory_path(), ec); }
@@ -533,6 +665,7 @@ int main(int argc, char **argv) {
 			if (streamMode) runStreamCase(c, r, nEvents, os);
 			else if (grayMode) runGrayCase(c, r, nEvents, os);
 			else if (arrayMode) runArrayCase(c, r, nEvents, os);
+			else if (transMode) runTransCase(c, r, nEvents, os);
 			else runCase(c, r, nEvents, os, deepMode);
 		} catch (const std::exception &e) {
 			std::string msg = e.what();
